@@ -51,7 +51,7 @@ def family(ctx: Ctx) -> List[Func]:
         f = work.pop()
         for n in f.own_nodes():
             if isinstance(n, ast.Call):
-                fs, _ = ctx.prog.callees(f, n, ctx._types)
+                fs, _ = ctx.prog.callees(f, n, ctx.types)
                 for g in fs:
                     if g.module is outer.module and g is not outer and g not in fam and not g.name.startswith("_algo"):
                         fam.append(g)
@@ -66,7 +66,7 @@ def fam_call(ctx: Ctx, f: Func, c: ast.AST) -> Optional[Func]:
     if not isinstance(c, ast.Call):
         return None
     fam = family(ctx)
-    fs, _ = ctx.prog.callees(f, c, ctx._types)
+    fs, _ = ctx.prog.callees(f, c, ctx.types)
     for g in fs:
         if g in fam:
             return g
@@ -336,6 +336,8 @@ def run(ctx: Ctx) -> None:
     so = prog.funcs.get("dds._config.set_option")
     if so is None:
         raise AnchorError("dds._config.set_option not found")
+    from .common import unfacade
+    so = unfacade(ctx, so)
     socfg = cfg_of(so)
     vals = [c for c in so.own_nodes() if isinstance(c, ast.Call) and isinstance(c.func, ast.Attribute) and c.func.attr == "validate"]
     stores9 = [st for st in so.own_nodes() if isinstance(st, ast.Assign) and any(isinstance(t, ast.Subscript) for t in st.targets)]
